@@ -6,6 +6,8 @@ package refserver
 
 import (
 	"compress/gzip"
+	"crypto/tls"
+	"crypto/x509"
 	"encoding/json"
 	"fmt"
 	"io"
@@ -38,6 +40,7 @@ type Stats struct {
 	ObjectsReceived     int
 	UpdateRequests      []map[string]*payload.Update // ref updates asked for by pushes
 	Errors              []string
+	Aborts              int // packfile responses cut by a stream reset (fault injection)
 }
 
 // Server is one remote repository.
@@ -46,6 +49,13 @@ type Server struct {
 	RS  ref.Store
 	TS  *httptest.Server
 	URL string
+
+	// fault injection: the AbortPackfile-th packfile response (1-based, counted over the server's
+	// life) is cut after AbortAfter bytes by aborting the handler, which an HTTP/2 server turns into
+	// RST_STREAM(INTERNAL_ERROR); the upload-pack session dies with it.
+	AbortPackfile int
+	AbortAfter    int
+	packSeq       int
 
 	MaxPackfileSize  uint64 // for upload-pack
 	TableNegotiation bool   // send TableHaves before the first packfile
@@ -80,6 +90,51 @@ func New(db objects.Store, rs ref.Store) *Server {
 	s.TS = httptest.NewServer(mux)
 	s.URL = s.TS.URL
 	return s
+}
+
+// NewH2 starts the same server speaking HTTP/2 over TLS (httptest's fixed localhost certificate;
+// see TrustTestCert).
+func NewH2(db objects.Store, rs ref.Store) *Server {
+	s := New(db, rs)
+	s.TS.Close()
+	mux := s.TS.Config.Handler
+	s.TS = httptest.NewUnstartedServer(mux)
+	s.TS.EnableHTTP2 = true
+	s.TS.StartTLS()
+	s.URL = s.TS.URL
+	return s
+}
+
+// TrustTestCert makes http.DefaultTransport (which wrgl's API client uses) trust httptest's
+// certificate. Call once, before the first request of the process.
+func TrustTestCert() {
+	ts := httptest.NewUnstartedServer(http.NotFoundHandler())
+	ts.EnableHTTP2 = true
+	ts.StartTLS()
+	pool := x509.NewCertPool()
+	pool.AddCert(ts.Certificate())
+	tr := http.DefaultTransport.(*http.Transport)
+	tr.TLSClientConfig = &tls.Config{RootCAs: pool, NextProtos: []string{"h2", "http/1.1"}}
+	tr.ForceAttemptHTTP2 = true
+	ts.Close()
+}
+
+// cutWriter aborts the handler after n bytes of body.
+type cutWriter struct {
+	http.ResponseWriter
+	left int
+}
+
+func (c *cutWriter) Write(b []byte) (int, error) {
+	if len(b) >= c.left {
+		c.ResponseWriter.Write(b[:c.left])
+		if f, ok := c.ResponseWriter.(http.Flusher); ok {
+			f.Flush()
+		}
+		panic(http.ErrAbortHandler)
+	}
+	c.left -= len(b)
+	return c.ResponseWriter.Write(b)
 }
 
 func (s *Server) Close() { s.TS.Close() }
@@ -120,6 +175,19 @@ func (s *Server) handleRefs(w http.ResponseWriter, r *http.Request) {
 
 func (s *Server) sendPackfile(w http.ResponseWriter) {
 	w.Header().Set("Content-Type", ctPackfile)
+	s.packSeq++
+	if s.AbortPackfile > 0 && s.packSeq == s.AbortPackfile {
+		s.Stats.Aborts++
+		sender := s.sender
+		s.finder, s.sender, s.candTables, s.tables, s.inTableNeg = nil, nil, nil, nil, false
+		s.upSession = ""
+		sender.WriteObjects(&cutWriter{w, s.AbortAfter}, nil)
+		// the packfile was shorter than AbortAfter: cut it at its end
+		if f, ok := w.(http.Flusher); ok {
+			f.Flush()
+		}
+		panic(http.ErrAbortHandler)
+	}
 	done, info, err := s.sender.WriteObjects(w, nil)
 	if err != nil {
 		s.Stats.Errors = append(s.Stats.Errors, "WriteObjects: "+err.Error())
